@@ -6,7 +6,7 @@ from check import *
 import native as nat
 import bp, sf_common
 
-EXPLANATION = ('C19: CBMC on the IR-derived C of the real Workload_Distribution and Range for all arguments in the bound (size, end points, monotonicity, differences within 1; exact half-open integer range in the stated direction); '
+EXPLANATION = ('C19: CBMC on the IR-derived C of the real Workload_Distribution for all arguments in the bound (size, end points, monotonicity, differences within 1); EA with symbolic integers on Range (exact half-open integer range in the stated direction); '
                'EA on Linear_Space / Log_Space (count, end points, equal spacing, monotonicity), Locate_Closest_Location (index in range, nearest element, unsorted input exits), the list templates on symbolic doubles for every length combination in the bound, '
                'and Arithmetic_Mean / Variance / Standard_Deviation / Median (sorting-network oracle) / Weighted_Average (equal weights reduce to mean and s/sqrt(N); arbitrary positive weights, N <= 3: the average is sum(w x)/sum(w) and the squared standard error is N/((N-1) W^2) sum w_i^2 (x_i - avg)^2, from which the translation and scaling laws follow).')
 BOUNDS = {'quick': {'workers': 8, 'tasks': 64, 'range': 6, 'steps': [2, 3, 4, 5], 'list_len': 3, 'stat_n': [1, 2, 3, 4, 5]}, 'thorough': {'workers': 12, 'tasks': 1024, 'range': 10, 'steps': [2, 3, 4, 5, 6, 8], 'list_len': 4, 'stat_n': [1, 2, 3, 4, 5, 6]}}
